@@ -62,10 +62,10 @@ Theorem c09_pack_injective : forall v w : bsf, pack v = pack w -> v = w.
 Proof. exact pack_injective. Qed.
 
 (* non-vacuity *)
-Example c09_ex_commutation : bsp (to_bsf [X;I;Z;I;Y]) (to_bsf [Y;Y;I;I;X]) = anticommutes [X;I;Z;I;Y] [Y;Y;I;I;X]
-  /\ anticommutes [X;I;Z;I;Y] [Y;Y;I;I;X] = false /\ anticommutes [X;Z] [Z;I] = true.
+Example c09_ex_commutation : bsp (to_bsf [pX;pI;pZ;pI;pY]) (to_bsf [pY;pY;pI;pI;pX]) = anticommutes [pX;pI;pZ;pI;pY] [pY;pY;pI;pI;pX]
+  /\ anticommutes [pX;pI;pZ;pI;pY] [pY;pY;pI;pI;pX] = false /\ anticommutes [pX;pZ] [pZ;pI] = true.
 Proof. vm_compute. auto. Qed.
-Example c09_ex_ipauli : length (ipauli 4 1 3) = 4*3 + 6*9 + 4*27 /\ In [I;Y;I;Z] (ipauli 4 1 3).
+Example c09_ex_ipauli : length (ipauli 4 1 3) = 4*3 + 6*9 + 4*27 /\ In [pI;pY;pI;pZ] (ipauli 4 1 3).
 Proof. vm_compute. intuition. Qed.
 Example c09_ex_pack : pack [true;false;true;true;false;false;false;false;true] =
   ([(true,false,true,true); (false,false,false,false); (true,false,false,false); zero_nibble], 9).
